@@ -226,7 +226,7 @@ func init() {
 		func(c *Ctx, r *R) {
 			want := map[string]map[string]string{
 				"genCmd":   {"header_file": "headerFile", "output_file_prefix": "prefixFileName", "tags": "tags"},
-				"diffCmd":  {"header_file": "headerFile", "tags": "tags"},
+				"diffCmd":  {"header_file": "headerFile", "output_file_prefix": "prefixFileName", "tags": "tags"}, // every option that changes what gen writes (F: diff lacked the prefix)
 				"showCmd":  {"tags": "tags"},
 				"checkCmd": {"tags": "tags"},
 			}
@@ -477,6 +477,98 @@ func init() {
 					}
 				}
 				r.Check(okM && p0 != nil, "mergeTypeSets/writes-destination-only", mf.Decl.Pos(), "mergeTypeSets modifies only its first argument")
+			}
+		})
+	register("C01.R8", "the emitted injector reproduces every component of the declared signature: of the accessors go/types offers on a function signature (computed from the type: Params, Results, Variadic, Recv, TypeParams, RecvTypeParams), parameters, results and variadic-ness are read by the emitters, and a receiver or a type parameter list — which the emitters never print — is rejected by the signature check that gen and check share",
+		func(c *Ctx, r *R) {
+			isf := r.Need(c.Fn(c.W, "injectorFuncSignature"), "injectorFuncSignature")
+			ip := r.Need(c.Fn(c.W, "injectPass"), "injectPass")
+			fo := r.Need(c.Fn(c.W, "funcOutput"), "funcOutput")
+			if isf == nil || ip == nil || fo == nil {
+				return
+			}
+			// universe: niladic methods of *types.Signature that describe the declaration
+			var sigT *types.Named
+			for _, im := range c.W.Types.Imports() {
+				if im.Path() == "go/types" {
+					if o, ok := im.Scope().Lookup("Signature").(*types.TypeName); ok {
+						sigT, _ = o.Type().(*types.Named)
+					}
+				}
+			}
+			if sigT == nil {
+				r.Bad("types.Signature", isf.Decl.Pos(), "go/types.Signature not found")
+				return
+			}
+			var accs []string
+			ms := types.NewMethodSet(types.NewPointer(sigT))
+			for i := 0; i < ms.Len(); i++ {
+				m := ms.At(i).Obj().(*types.Func)
+				msig := m.Type().(*types.Signature)
+				if !m.Exported() || msig.Params().Len() != 0 || msig.Results().Len() != 1 {
+					continue
+				}
+				switch m.Name() {
+				case "String", "Underlying":
+					continue // not components of the declaration
+				}
+				accs = append(accs, m.Name())
+			}
+			sort.Strings(accs)
+			r.Floor("signature components", len(accs), 6)
+			uses := func(fi *FuncInfo, acc string) bool {
+				return len(fi.callsTo("go/types.Signature."+acc)) > 0
+			}
+			rejected := func(acc string) bool {
+				for _, ret := range isf.returnsOf() {
+					if len(ret.Results) == 0 || isf.isNilIdent(ret.Results[len(ret.Results)-1]) {
+						continue
+					}
+					for _, g := range isf.Guards(ret) {
+						if g.Neg || g.Kind != "bool" {
+							continue
+						}
+						be, ok := ast.Unparen(g.Expr).(*ast.BinaryExpr)
+						if !ok {
+							continue
+						}
+						x := ast.Unparen(be.X)
+						nonEmpty := false
+						if lc := isf.isCall(x, "go/types.TypeParamList.Len", "go/types.Tuple.Len"); lc != nil {
+							x = recvOf(lc)
+							nonEmpty = (be.Op == token.GTR || be.Op == token.NEQ) && types.ExprString(be.Y) == "0"
+						} else {
+							nonEmpty = be.Op == token.NEQ && isf.isNilIdent(be.Y)
+						}
+						if nonEmpty && isf.isCall(isf.deref(x), "go/types.Signature."+acc) != nil {
+							return true
+						}
+					}
+				}
+				return false
+			}
+			for _, acc := range accs {
+				switch acc {
+				case "Params", "Variadic":
+					r.Check(uses(ip, acc), "component:"+acc, ip.Decl.Pos(), "%s is read by the injector emitter", acc)
+				case "Results":
+					r.Check(uses(fo, acc) && len(ip.callsTo(pathW+".funcOutput")) > 0, "component:"+acc, fo.Decl.Pos(), "Results is read by funcOutput, which the emitter consults")
+				case "RecvTypeParams":
+					r.Check(rejected("Recv"), "component:"+acc, isf.Decl.Pos(), "receiver type parameters exist only on methods, which are rejected")
+				default:
+					// anything else (Recv, TypeParams, and whatever a later go/types adds) is not printed: it must be rejected
+					if uses(ip, acc) {
+						r.Ok("component:"+acc, ip.Decl.Pos(), "%s is read by the injector emitter", acc)
+					} else {
+						r.Check(rejected(acc), "component:"+acc, isf.Decl.Pos(), "the emitter prints no %s, so a signature that has one is rejected with a diagnostic", acc)
+					}
+				}
+			}
+			// both drivers go through the shared signature check (C19.R2 checks the order and the error handling)
+			for _, name := range []string{"generateInjectors", "Load"} {
+				if fi := r.Need(c.Fn(c.W, name), name); fi != nil {
+					r.Check(len(fi.callsTo(pathW+".injectorFuncSignature")) > 0, name+"/uses-shared-signature-check", fi.Decl.Pos(), "%s validates each injector with injectorFuncSignature", name)
+				}
 			}
 		})
 }
